@@ -10,7 +10,7 @@ SHARED = {"checks/vlib.py", "checks/check.py", "checks/setup.sh", "lean/lakefile
           "harness/common/exact_q.hpp", "harness/common/forkcase.hpp", "MANIFEST.json", "DESIGN.md", "CONTRIBUTING.md",
           "properties.jsonl", "KNOWN_FINDINGS.json", "lean/FeatModel.lean", ".gitignore", "harness/config/feat_config.hpp",
           "tools/mkscratch.py", "tools/merge_prop.py", "lean/lake-manifest.json"}
-SKIP_DIRS = ("build/", "lean/.lake/", "evidence/", "replays/", "__pycache__", ".git/")
+SKIP_DIRS = ("seeded/", "build/", "lean/.lake/", "evidence/", "replays/", "__pycache__", ".git/")
 new, changed, shared_changed = [], [], []
 for root, dirs, files in os.walk(src):
     rel_root = os.path.relpath(root, src)
